@@ -163,7 +163,7 @@ func (s *Sim) apply(o Op) (r stepResult) {
 		} else {
 			err = s.pool.AddRemote(tx)
 		}
-		r.opStr = fmt.Sprintf("op=add:%d:%d:%v", l, t.Kind, t)
+		r.opStr = fmt.Sprintf("op=add o.loc=%d o.kind=%d o.tx=%v", l, t.Kind, t)
 		r.res = errClass(err)
 		r.adds = 1
 	case "adds":
@@ -181,7 +181,7 @@ func (s *Sim) apply(o Op) (r stepResult) {
 		for i, e := range errs {
 			cs[i] = errClass(e)
 		}
-		r.opStr = fmt.Sprintf("op=adds:%d:%s", l, renderTxs(o.Txs))
+		r.opStr = fmt.Sprintf("op=adds o.loc=%d o.txs=%s", l, renderTxs(o.Txs))
 		r.res = strings.Join(cs, ",")
 		if len(cs) == 0 {
 			r.res = "-"
@@ -189,7 +189,7 @@ func (s *Sim) apply(o Op) (r stepResult) {
 		r.adds = len(o.Txs)
 	case "price":
 		s.pool.SetGasPrice(new(big.Int).SetUint64(o.Price))
-		r.opStr = fmt.Sprintf("op=price:%d", o.Price)
+		r.opStr = fmt.Sprintf("op=price o.p=%d", o.Price)
 		r.res = "ok"
 	case "head":
 		old := s.w.Head()
@@ -216,7 +216,7 @@ func (s *Sim) apply(o Op) (r stepResult) {
 		if nw.parent == old {
 			linear = 1
 		}
-		r.opStr = fmt.Sprintf("op=reset:%d:%d:%d:%d:%d:%s:%s:%s", old.num, nw.num, same, linear, nw.gasLim, strings.Join(st, ";"), renderTxs(r.disc), renderTxs(r.inc))
+		r.opStr = fmt.Sprintf("op=reset o.old=%d o.new=%d o.same=%d o.lin=%d o.mg=%d o.view=%s o.disc=%s o.inc=%s", old.num, nw.num, same, linear, nw.gasLim, strings.Join(st, ";"), renderTxs(r.disc), renderTxs(r.inc))
 		s.w.SetHead(nw)
 		s.pool.VerifReset(old.blk.Header(), nw.blk.Header())
 		r.res = "ok"
@@ -252,12 +252,16 @@ func runHistory(run *hx.Run, h *History, emit bool) (fails []failure) {
 		}
 		post := Observe(w, sim.pool)
 		var cf []clauseFail
-		cf = append(cf, post.CheckInv(h.Cfg, true)...)
+		cf = append(cf, post.CheckInv(h.Cfg, r.limits)...)
 		cf = append(cf, CheckReplacement(pre, post, h.Cfg, r.adds)...)
 		if r.isReset {
 			cf = append(cf, CheckReorg(pre, post, h.Cfg, r.disc, r.inc, r.oldNum, r.newNum)...)
 		}
 		for _, f := range cf {
+			if f.clause == "run" && r.isReset && post.CNonce[f.acct] < pre.CNonce[f.acct] && f.missing < pre.CNonce[f.acct] {
+				// the chain nonce moved back and the first missing nonce lies in the re-injected range
+				f.clause = "run-reinject-hole"
+			}
 			fails = append(fails, failure{f.clause, f.detail, i})
 		}
 		if emit {
